@@ -12,7 +12,7 @@ from gvmon.gen import records as R
 from gvmon.models import dialect as M
 from gvmon.monitors import contracts
 
-RULE = ("(1) uniform-regime files in each of 48 dialect points (key=value, key="value", key "value", key value x separators x trailing x repeated) x checklines {0,1,2,5,10,50}: reported dialect == written "
+RULE = ("(1) uniform-regime files in each of 48 dialect points (four key/value styles x separators x trailing x repeated) x checklines {0,1,2,5,10,50}: reported dialect == written "
         "dialect at DataIterator / FeatureDB / reopened FeatureDB, per-line helpers.infer_dialect == exhibited dialect; "
         "(2) routing files (gene/mRNA/exon with Parent, or GTF exons) in every dialect point; (3) mixtures: files whose "
         "lines carry two values of one dialect key with generated attribute-count weights incl. exact ties in both orders "
